@@ -72,12 +72,12 @@ def mc(name, consts, invs=INVS, workers=2, timeout=1500, prop=None):
         os.remove(os.path.join(SPEC, cfg))
 
 
-def emit(name, consts, timeout=1500):
+def emit(name, consts, workers=1, timeout=1500):
     """exhaustive run with the invariants AND one printed behaviour per
     terminal state; returns (raw lines, TLCResult)"""
     cfg = write_cfg(f'_x01_{name}.cfg', consts, invs=INVS + ['EmitScript'])
     try:
-        res = tlc.run(SPEC, 'Scp', cfg, f'X01_{name}', workers=1,
+        res = tlc.run(SPEC, 'Scp', cfg, f'X01_{name}', workers=workers,
                       timeout=timeout, java_heap='3g')
     finally:
         tlc.cleanup(f'X01_{name}')
@@ -176,10 +176,11 @@ def main(ctx):
         return
 
     W = 2 if quick else 4
-    # ---- TLC: design checks that also print the cases ----------------------
+    # ---- TLC jobs ------------------------------------------------------------
     N3 = dict(MaxNodes=3, RecSet='{TRUE}', DstKinds='{"dir"}',
-              DirFlagSet='{FALSE}', TopMax=1, MaxRefuse=2 if not quick else 1)
+              DirFlagSet='{FALSE}', TopMax=1, MaxRefuse=1 if quick else 2)
     emits = [
+        # exhaustive design check that also prints one case per terminal state
         ('up2', 'upload', dict(UP)),
         ('down2', 'download', dict(DOWN)),
         ('r2r2', 'r2r', dict(R2R)),
@@ -188,109 +189,113 @@ def main(ctx):
         ('r2r3', 'r2r', dict(R2R, **N3)),
     ]
     if not quick:
-        N3W = dict(MaxNodes=3, MaxRefuse=1, HandlerSet='{TRUE}')
+        N3W = dict(MaxNodes=3, MaxRefuse=1, HandlerSet='{TRUE}',
+                   DstKinds='{"dir", "none"}')
         emits += [('up3w', 'upload', dict(UP, **N3W)),
                   ('down3w', 'download', dict(DOWN, **N3W)),
                   ('r2r3w', 'r2r', dict(R2R, **N3W))]
     FS = dict(SnkRole='"free"', DstKinds='{"dir"}', DirFlagSet='{FALSE}',
-              RefKinds='{"sopen", "sread"}', AllowCut='"quiet"',
-              TopMax=1 if quick else 2)
-    FR = dict(SrcRole='"free"', MaxNodes=0, MaxName=2, Sizes='{0, 1}',
-              RefKinds='{"kcreate", "kwrite", "kstat"}', AllowCut='"quiet"',
-              MaxRec=3)
-    scripts = [
-        ('fsnk_cli', 'cli_source', dict(FS, SrcServer='FALSE')),
-        ('fsnk_srv', 'srv_source', dict(FS, SrcServer='TRUE',
-                                        HandlerSet='{FALSE}')),
-        ('fsrc_cli', 'cli_sink', dict(FR, SnkServer='FALSE',
-                                      DirFlagSet='{FALSE}', MaxRefuse=0,
-                                      RefKinds='{}')),
-        ('fsrc_srv', 'srv_sink', dict(FR, SnkServer='TRUE',
-                                      HandlerSet='{FALSE}',
-                                      DstKinds='{"dir", "none"}')),
+              RefKinds='{"sopen", "sread"}', TopMax=1, MaxNodes=3)
+    FR = dict(SrcRole='"free"', MaxNodes=0, MaxName=2, Sizes='{0, 1, 2}',
+              MaxRec=6)
+    REFK = dict(RefKinds='{"kcreate", "kwrite", "kstat"}', MaxRefuse=1,
+                DstKinds='{"dir"}')
+    NOREF = dict(RefKinds='{}', MaxRefuse=0)
+    CUT, NOCUT = dict(AllowCut='"quiet"'), dict(AllowCut='"no"')
+    k = 1 if quick else 8
+    sims = [
+        # (name, setup, number of random behaviours, constants)
+        ('s_clisrc_c', 'cli_source', 2500 * k, dict(FS, **CUT)),
+        ('s_clisrc_n', 'cli_source', 2500 * k, dict(FS, **NOCUT)),
+        ('s_srvsrc_c', 'srv_source', 2000 * k,
+         dict(FS, SrcServer='TRUE', HandlerSet='{FALSE}', **CUT)),
+        ('s_srvsrc_n', 'srv_source', 2000 * k,
+         dict(FS, SrcServer='TRUE', HandlerSet='{FALSE}', **NOCUT)),
+        ('s_clisnk_c', 'cli_sink', 2500 * k,
+         dict(FR, SnkServer='FALSE', DirFlagSet='{FALSE}', **NOREF, **CUT)),
+        ('s_clisnk_n', 'cli_sink', 3000 * k,
+         dict(FR, SnkServer='FALSE', DirFlagSet='{FALSE}', **NOREF, **NOCUT)),
+        ('s_srvsnk_c', 'srv_sink', 2500 * k,
+         dict(FR, SnkServer='TRUE', HandlerSet='{FALSE}', **REFK, **CUT)),
+        ('s_srvsnk_n', 'srv_sink', 3000 * k,
+         dict(FR, SnkServer='TRUE', HandlerSet='{FALSE}', **NOREF, **NOCUT)),
     ]
-    if not quick:
-        scripts += [
-            ('fsrc_srv4', 'srv_sink',
-             dict(FR, SnkServer='TRUE', HandlerSet='{FALSE}', MaxRec=4,
-                  MaxRefuse=0, RefKinds='{}', DstKinds='{"dir"}',
-                  RecSet='{TRUE}', DirFlagSet='{FALSE}', MaxName=1)),
-            ('fsrc_cli4', 'cli_sink',
-             dict(FR, SnkServer='FALSE', MaxRec=4, MaxRefuse=0,
-                  RefKinds='{}', DstKinds='{"dir"}', RecSet='{TRUE}',
-                  DirFlagSet='{FALSE}', MaxName=1, PresSet='{TRUE}')),
-            ('fsnk_cli3', 'cli_source',
-             dict(FS, SrcServer='FALSE', MaxNodes=3, RecSet='{TRUE}',
-                  PresSet='{FALSE}', TopMax=1, MaxRefuse=0, RefKinds='{}',
-                  AllowCut='"no"')),
-        ]
     small = dict(MaxNodes=2, DstKinds='{"dir"}', DirFlagSet='{FALSE}',
                  TopMax=2)
-    sens = [
-        # (name, expected violation, constants)
-        ('nowait', 'NoDesync', dict(small, WaitAfterData='FALSE')),
-        ('warnfatal', 'RefusalsReported', dict(small, WarnIsFatal='TRUE')),
-        ('noE', 'TreeReproduced', dict(small, SendEmptyE='FALSE',
-                                       MaxNodes=3 if not quick else 2)),
-        ('nostat', 'NoDesync', dict(small, SinkReadsStatus='FALSE')),
-        ('norecord', 'RefusalsReported', dict(small, RecordErrors='FALSE')),
-        ('wrongside', 'ForwardedRight', dict(small, CopierRightSide='FALSE',
-                                             **R2R)),
-        # the pinned tree's rules (findings): TLC rejects them too
-        ('pinned_setstat', 'NoDesync', dict(small, StatBeforeReply='FALSE')),
+    FRS = dict(SrcRole='"free"', MaxNodes=0, MaxName=2, Sizes='{0, 1}',
+               MaxRec=2 if quick else 3, HandlerSet='{FALSE}',
+               DirFlagSet='{TRUE, FALSE}' if not quick else '{FALSE}')
+    checks = [
+        # (name, expected violation or None, constants, property)
+        ('x_fsnk_cli', None, dict(FS, MaxNodes=2, TopMax=2, **CUT), None),
+        ('x_fsnk_srv', None, dict(FS, MaxNodes=2, TopMax=2, SrcServer='TRUE',
+                                  HandlerSet='{FALSE}', **CUT), None),
+        ('x_fsrc_srv', None, dict(FRS, SnkServer='TRUE', **REFK, **CUT),
+         None),
+        ('x_fsrc_cli', None, dict(FRS, SnkServer='FALSE',
+                                  HandlerSet='{TRUE, FALSE}', **NOREF, **CUT),
+         None),
+        # liveness under weak fairness, connection loss at any point
+        ('live_up', None, dict(UP, AllowCut='"any"', DstKinds='{"dir", "none"}',
+                               DirFlagSet='{FALSE}', TopMax=1), 'Terminates'),
+        ('live_r2r', None, dict(R2R, AllowCut='"any"', DstKinds='{"dir"}',
+                                DirFlagSet='{FALSE}', TopMax=1,
+                                PresSet='{TRUE}'), 'Terminates'),
+        ('live_fsnk', None, dict(FS, MaxNodes=2, AllowCut='"any"'),
+         'Terminates'),
+        ('live_fsrc', None, dict(FRS, SnkServer='TRUE', AllowCut='"any"',
+                                 DstKinds='{"dir"}', **NOREF), 'Terminates'),
+        # sensitivity: wrong rules that TLC must reject
+        ('nowait', 'NoDesync', dict(small, WaitAfterData='FALSE'), None),
+        ('warnfatal', 'RefusalsReported', dict(small, WarnIsFatal='TRUE'),
+         None),
+        ('noE', 'TreeReproduced', dict(small, SendEmptyE='FALSE'), None),
+        ('nostat', 'NoDesync', dict(small, SinkReadsStatus='FALSE'), None),
+        ('norecord', 'RefusalsReported', dict(small, RecordErrors='FALSE'),
+         None),
+        ('wrongside', 'ForwardedRight',
+         dict(small, CopierRightSide='FALSE', **R2R), None),
+        # the pinned tree's own rules (reported defects): rejected as well
+        ('pinned_setstat', 'NoDesync', dict(small, StatBeforeReply='FALSE'),
+         None),
         ('pinned_readfail', 'RefusalsReported',
-         dict(small, ZeroFillFirst='FALSE', **DOWN)),
+         dict(small, ZeroFillFirst='FALSE', **DOWN), None),
         # vacuity witnesses
-        ('wit_nested', 'NeverNested', dict(small, MaxNodes=3, MaxRefuse=0,
-                                           invs=['NeverNested'])),
-        ('wit_abort', 'NeverAbort', dict(small, invs=['NeverAbort'])),
-        ('wit_handled', 'NeverHandled', dict(small, invs=['NeverHandled'])),
-    ]
-    live = [
-        ('live_up', dict(UP, AllowCut='"any"', DstKinds='{"dir", "none"}',
-                         DirFlagSet='{FALSE}', TopMax=1)),
-        ('live_r2r', dict(R2R, AllowCut='"any"', DstKinds='{"dir"}',
-                          DirFlagSet='{FALSE}', TopMax=1,
-                          PresSet='{TRUE}' if quick else '{TRUE, FALSE}')),
-        ('live_fsnk', dict(FS, SrcServer='FALSE', AllowCut='"any"')),
-        ('live_fsrc', dict(FR, SnkServer='TRUE', AllowCut='"any"',
-                           MaxRec=2 if quick else 3, HandlerSet='{FALSE}',
-                           DstKinds='{"dir"}')),
+        ('wit_nested', 'NeverNested',
+         dict(small, MaxNodes=3, MaxRefuse=0, invs=['NeverNested']), None),
+        ('wit_abort', 'NeverAbort', dict(small, invs=['NeverAbort']), None),
+        ('wit_handled', 'NeverHandled', dict(small, invs=['NeverHandled']),
+         None),
     ]
 
-    def one_sens(item):
-        name, _exp, kw = item
+    def one_check(item):
+        name, _exp, kw, prop = item
         kw = dict(kw)
         invs = kw.pop('invs', INVS)
+        if prop:
+            return mc(name, kw, invs=[], workers=W, prop=prop)
         return mc(name, kw, invs=invs, workers=W)
 
-    with concurrent.futures.ThreadPoolExecutor(max_workers=4) as ex:
-        f_emit = [ex.submit(emit, n, kw) for n, _m, kw in emits]
-        f_scr = [ex.submit(emit, n, kw) for n, _s, kw in scripts]
-        f_live = [ex.submit(mc, n, kw, [], W, 1500, 'Terminates')
-                  for n, kw in live]
-        f_sens = [ex.submit(one_sens, it) for it in sens]
-        r_emit = [f.result() for f in f_emit]
-        r_scr = [f.result() for f in f_scr]
-        r_live = [f.result() for f in f_live]
-        r_sens = [f.result() for f in f_sens]
-    for (name, mode, kw), (lines, res) in zip(emits, r_emit):
-        ctx.require_tlc_ok(f'Scp {name} (design check + cases) {kw}', res)
-        ctx.require(len(lines) > 50, f'{name}: only {len(lines)} cases')
-    for (name, setup, kw), (lines, res) in zip(scripts, r_scr):
-        ctx.require_tlc_ok(f'Scp {name} (design check + scripts) {kw}', res)
-        ctx.require(len(lines) > 50, f'{name}: only {len(lines)} scripts')
-    for (name, kw), res in zip(live, r_live):
-        ctx.require_tlc_ok(f'Scp {name} (Terminates under WF) {kw}', res)
-    for (name, exp, kw), res in zip(sens, r_sens):
-        ctx.require_tlc_ok(f'Scp {name} {kw}', res, expect_violation=exp)
+    def one_sim(item):
+        i, (name, _setup, num, kw) = item
+        return simulate(name, kw, num, ctx.seed * 1000 + 31 + i)
 
-    # ---- (a) tree cases ----------------------------------------------------
-    budget_a = {'quick': 330, 'thorough': 4000}[ctx.tier]
+    ex = concurrent.futures.ThreadPoolExecutor(max_workers=6)
+    f_emit = [ex.submit(emit, n, kw, 2 if quick else 1)
+              for n, _m, kw in emits]
+    f_sim = [ex.submit(one_sim, it) for it in enumerate(sims)]
+    f_chk = [ex.submit(one_check, it) for it in checks]
+
+    # ---- (a) tree cases (replayed while the other TLC runs go on) ------------
+    budget_a = {'quick': 110, 'thorough': 1500}[ctx.tier]
     total = 0
     outcomes = {}
     skipped = 0
-    for (name, mode, kw), (lines, _res) in zip(emits, r_emit):
+    for (name, mode, kw), fut in zip(emits, f_emit):
+        lines, res = fut.result()
+        ctx.require_tlc_ok(f'Scp {name} (design check + cases) {kw}', res)
+        ctx.require(len(lines) > 50, f'{name}: only {len(lines)} cases')
+        lines.sort()
         rnd.shuffle(lines)
         done = 0
         per_kind = {}
@@ -302,11 +307,11 @@ def main(ctx):
             if not drv.materialisable(mode, cfg):
                 continue
             kinds = '+'.join(refkinds(cfg)) or 'none'
-            # keep the mix balanced: at most 45% of the budget without refusal
-            if kinds == 'none' and per_kind.get('none', 0) > 0.45 * budget_a:
+            # keep the mix balanced: at most 40% of the budget without refusal
+            if kinds == 'none' and per_kind.get('none', 0) >= 0.4 * budget_a:
                 continue
             server_src = mode != 'upload'
-            big = server_src and ('sread' in kinds or rnd.random() < 0.04)
+            big = server_src and ('sread' in kinds or rnd.random() < 0.03)
             unit = drv.SRV_BLOCK if big else rnd.choice([2, 5, 16, 64])
             if not server_src and 'sread' in kinds:
                 unit = drv.LOCAL_BIG    # beyond the read-ahead of a local file
@@ -331,47 +336,59 @@ def main(ctx):
             report(ctx, mode, r, {'kind': 'tree', 'mode': mode,
                                   'final': final, 'deco': deco.d}, counters)
     # ---- (b) scripts -------------------------------------------------------
-    budget_b = {'quick': 300, 'thorough': 3000}[ctx.tier]
+    budget_b = {'quick': 90, 'thorough': 1200}[ctx.tier]
     nscripts = 0
     ends = {}
-    for (name, setup, kw), (lines, _res) in zip(scripts, r_scr):
+    for (name, setup, _num, kw), fut in zip(sims, f_sim):
+        lines, res = fut.result()
+        ctx.require(res.violation is None and not res.error,
+                    f'Scp simulate {name}: {res.violation} {res.error}\n' +
+                    res.output[-2000:])
+        ctx.add_tlc(f'Scp simulate {name} {kw}', res)
+        ctx.require(len(lines) > 50, f'{name}: only {len(lines)} scripts')
         rnd.shuffle(lines)
-        parsed = []
-        for line in lines[:budget_b * 3]:
-            log, final = parse_line(line)
-            parsed.append((log, final))
-        # longest / most eventful first, then the rest
+        parsed = [parse_line(l) for l in lines[:budget_b * 6]]
+        # the longer half first, then a random rest
         parsed.sort(key=lambda p: -len(p[0]))
-        head = parsed[:budget_b // 2]
-        tail = parsed[budget_b // 2:]
+        head = parsed[:budget_b * 2 // 3]
+        tail = parsed[budget_b * 2 // 3:]
         rnd.shuffle(tail)
-        for log, final in head + tail[:budget_b - len(head)]:
+        done = 0
+        for log, final in head + tail:
+            if done >= budget_b:
+                break
             cfg = final['cfg']
-            real_src = setup.endswith('source')
-            big = setup == 'srv_source' and ('sread' in refkinds(cfg))
+            kinds = refkinds(cfg)
+            big = setup == 'srv_source' and 'sread' in kinds
             unit = drv.SRV_BLOCK if big else rnd.choice([2, 5, 16])
-            if setup == 'cli_source' and 'sread' in refkinds(cfg):
+            if setup == 'cli_source' and 'sread' in kinds:
                 unit = drv.LOCAL_BIG
             deco = drv.Deco.pick(rnd, cfg, setup, unit,
                                  max(len(cfg['tree']), 3))
-            deco.d['glob'] = False if not real_src else deco.d['glob']
             r = drv.run_script(setup, log, final, deco)
             if r['skipped']:
                 skipped += 1
                 continue
+            done += 1
             nscripts += 1
             ctx.count((setup, json.dumps(log)), nontrivial=len(log) >= 4)
             ends[(setup, r.get('ended'))] = \
                 ends.get((setup, r.get('ended')), 0) + 1
             if nscripts % 173 == 5:
                 ctx.sample({'setup': setup, 'cfg': compact(cfg),
-                            'log': [(w, c, t['t']) for w, c, t in log][:14],
+                            'log': [f'{w}:{t["t"]}{t["n"]}' for w, c, t
+                                    in log][:16],
                             'ended': r.get('ended'),
                             'raised': r.get('raised')})
             report(ctx, setup, r, {'kind': 'script', 'setup': setup,
                                    'log': log, 'final': final,
                                    'deco': deco.d}, counters)
     drv.drop_world()
+    for (name, exp, kw, prop), fut in zip(checks, f_chk):
+        res = fut.result()
+        ctx.require_tlc_ok(f'Scp {name} {prop or ""} {kw}', res,
+                           expect_violation=exp)
+    ex.shutdown()
     ctx.traces_validated(total + nscripts)
     ctx.notes.append('tree cases: ' + ', '.join(
         f'{m}/{o}={n}' for (m, o), n in sorted(outcomes.items())))
@@ -380,9 +397,9 @@ def main(ctx):
     if skipped:
         ctx.notes.append(f'{skipped} cases skipped (refusal or order that '
                          f'cannot be produced in that mode)')
-    ctx.require(total >= (300 if quick else 3000),
+    ctx.require(total >= (500 if quick else 6000),
                 f'only {total} tree cases were replayed')
-    ctx.require(nscripts >= (300 if quick else 2500),
+    ctx.require(nscripts >= (500 if quick else 6000),
                 f'only {nscripts} scripts were replayed')
     for m in ('upload', 'download', 'r2r'):
         ctx.require(all(outcomes.get((m, o), 0) > 0
